@@ -286,3 +286,14 @@ Proof.
   exists [(QStream 0 [] true, ex_blocked)]. split; [|vm_compute; reflexivity].
   cbn. split; [|exact Logic.I]. intros q [].
 Qed.
+
+(* the hypotheses of h3parse_refines_stream_model hold for a new stream *)
+Example refinement_hypotheses_fresh : forall client sid, sinv client ginit (new_stream sid) /\ cur_ok (new_stream sid).
+Proof. intros. split; [apply sinv_init|intros n H; discriminate]. Qed.
+
+(* a list the refusal lemmas apply to: header name "A" *)
+Example malformed_headers_example : forall k, ~ wellformed k [(b_method, [71]); ([65], [49])].
+Proof.
+  intros k (H & _). inversion H as [|x l H1 H2]; subst. inversion H2 as [|y l2 H3 H4]; subst.
+  destruct H3 as (N & _). cbn in N. inversion N as [|c t R]; subst. destruct R as (_ & R2). apply R2. lia.
+Qed.
